@@ -247,3 +247,200 @@ Proof.
         intros Hin. apply existsb_bytes_iff in Hin. congruence.
       * intros u. rewrite !in_app_iff, I. reflexivity.
 Qed.
+
+Definition group_for (es : list ientry) (u : bytes) : bytes * list ientry := (u, filter (url_is u) es).
+
+Lemma filter_snoc {A} (f : A -> bool) (l : list A) (x : A) :
+  filter f (l ++ [x]) = filter f l ++ (if f x then [x] else []).
+Proof. rewrite filter_app. reflexivity. Qed.
+
+Lemma filter_url_snoc (u : bytes) (es : list ientry) (e : ientry) :
+  filter (url_is u) (es ++ [e]) =
+  if bytes_eqb u (ie_url e) then filter (url_is u) es ++ [e] else filter (url_is u) es.
+Proof.
+  rewrite filter_snoc. unfold url_is at 2. destruct (bytes_eqb u (ie_url e)); [reflexivity|apply app_nil_r].
+Qed.
+
+Lemma group_add_map (us : list bytes) : NoDup us -> forall es e,
+  group_add (map (group_for es) us) e =
+  if existsb (bytes_eqb (ie_url e)) us then map (group_for (es ++ [e])) us
+  else map (group_for (es ++ [e])) us ++ [(ie_url e, [e])].
+Proof.
+  induction 1 as [|u t Hu ND IH]; intros es e; cbn [map group_add existsb]; [reflexivity|].
+  unfold group_for at 1. destruct (bytes_eqb u (ie_url e)) eqn:E.
+  - apply bytes_eqb_eq in E. subst u. rewrite bytes_eqb_refl. cbn [orb map]. f_equal.
+    + unfold group_for. rewrite filter_url_snoc, bytes_eqb_refl. reflexivity.
+    + apply map_ext_in. intros u' Hu'. unfold group_for. rewrite filter_url_snoc.
+      destruct (bytes_eqb u' (ie_url e)) eqn:E'; [|reflexivity].
+      apply bytes_eqb_eq in E'. subst u'. contradiction.
+  - assert (E' : bytes_eqb (ie_url e) u = false).
+    { apply bytes_eqb_neq. apply bytes_eqb_neq in E. congruence. }
+    rewrite E'. cbn [orb]. rewrite IH.
+    assert (G : group_for (es ++ [e]) u = (u, filter (url_is u) es)).
+    { unfold group_for. rewrite filter_url_snoc, E. reflexivity. }
+    destruct (existsb (bytes_eqb (ie_url e)) t); cbn [map app]; rewrite G; reflexivity.
+Qed.
+
+Lemma group_entries_eq (es : list ientry) : group_entries es = groups_of es.
+Proof.
+  unfold group_entries. induction es as [|e es IH] using rev_ind; [reflexivity|].
+  rewrite fold_left_app. cbn [fold_left]. rewrite IH. unfold groups_of.
+  change (fun u => (u, filter (url_is u) es)) with (group_for es).
+  change (fun u => (u, filter (url_is u) (es ++ [e]))) with (group_for (es ++ [e])).
+  destruct (first_urls_spec es) as [ND I].
+  rewrite group_add_map by exact ND. rewrite first_urls_snoc.
+  destruct (existsb (bytes_eqb (ie_url e)) (first_urls es)) eqn:X; [reflexivity|].
+  rewrite map_app. cbn [map]. f_equal. f_equal. unfold group_for. f_equal.
+  rewrite filter_url_snoc, bytes_eqb_refl.
+  assert (F : filter (url_is (ie_url e)) es = []).
+  { destruct (filter (url_is (ie_url e)) es) as [|e' r] eqn:F; [reflexivity|exfalso].
+    assert (Hin : In e' (filter (url_is (ie_url e)) es)) by (rewrite F; left; reflexivity).
+    apply filter_In in Hin. destruct Hin as [Hin Hu]. unfold url_is in Hu. apply bytes_eqb_eq in Hu.
+    assert (X' : existsb (bytes_eqb (ie_url e)) (first_urls es) = true).
+    { apply existsb_bytes_iff. apply I. rewrite Hu. apply in_map. exact Hin. }
+    congruence. }
+  rewrite F. reflexivity.
+Qed.
+
+Lemma groups_of_keys (es : list ientry) : map fst (groups_of es) = first_urls es.
+Proof. unfold groups_of. rewrite map_map. cbn [fst]. apply map_id. Qed.
+
+Lemma groups_of_in (es : list ientry) (u : bytes) (g : list ientry) :
+  In (u, g) (groups_of es) -> g = filter (url_is u) es /\ g <> [] /\ In u (map ie_url es).
+Proof.
+  unfold groups_of. intros H. apply in_map_iff in H. destruct H as [u' [E Hu]]. inversion E; subst u' g.
+  split; [reflexivity|]. apply (first_urls_spec es) in Hu. split; [|exact Hu].
+  apply in_map_iff in Hu. destruct Hu as [e [Ee He]]. intros F.
+  assert (Hin : In e (filter (url_is u) es)).
+  { apply filter_In. split; [exact He|]. unfold url_is. rewrite Ee. apply bytes_eqb_refl. }
+  rewrite F in Hin. contradiction.
+Qed.
+
+(* ---- index entries --------------------------------------------------------------------- *)
+Definition loc_of (e : ientry) : N * N := (ie_off e, ie_len e).
+
+Lemma locs_eq (es : list ientry) : locs es = flat_map loc_bytes (map loc_of es).
+Proof.
+  unfold locs. rewrite flat_map_map. apply flat_map_ext. intros e. unfold loc_bytes, loc_of. cbn [fst snd].
+  rewrite !enc_uint_item. reflexivity.
+Qed.
+
+(* index_entry without the encoding step: (url, variants value, entries in index order) *)
+Definition index_entry_pre (v : bversion) (g : bytes * list ientry) : R (bytes * bytes * list ientry) :=
+  let (u, es) := g in
+  if negb (utf8_valid u) then
+    (match v, es with BV2, _ :: _ :: _ => Err | _, _ => Panic end)
+  else
+  match v with
+  | BV1 =>
+      match es with
+      | e0 :: _ :: _ =>
+          let* ordered := entries_in_possible_key_order
+                            (map (fun e => (ie_variants e, ie_vkey e, e)) es) in
+          Ok (u, ie_variants e0, ordered)
+      | _ => Ok (u, [], es)
+      end
+  | BV2 => match es with [e] => Ok (u, [], es) | _ => Err end
+  end.
+
+Definition triple_of (t : bytes * bytes * list ientry) : bytes * bytes * list (N * N) :=
+  (fst (fst t), snd (fst t), map loc_of (snd t)).
+Definition enc_ix (v : bversion) (e : bytes * bytes * list (N * N)) : bytes * bytes :=
+  (index_key e, index_val v e).
+
+Lemma index_entry_eq (v : bversion) (g : bytes * list ientry) :
+  index_entry v g = let* t := index_entry_pre v g in Ok (enc_ix v (triple_of t)).
+Proof.
+  destruct g as [u es]. unfold index_entry, index_entry_pre.
+  destruct (negb (utf8_valid u)).
+  { destruct v; [reflexivity|]. destruct es as [|? [|? ?]]; reflexivity. }
+  unfold enc_ix, triple_of, index_key, index_val, ix_url, ix_vv, ix_locs. cbn [fst snd].
+  destruct v.
+  - assert (S : forall es' : list ientry,
+             Ok (enc_bytes_of MText u, enc_array_header (1 + lenN es' * 2) ++ enc_bytes [] ++ locs es')
+             = Ok (text_item u, arr_head (1 + 2 * lenN (map loc_of es')) ++ bstr_item [] ++
+                                flat_map loc_bytes (map loc_of es'))).
+    { intros es'. rewrite enc_text_item, enc_arr_item, enc_bytes_item, locs_eq, lenN_map, N.mul_comm.
+      reflexivity. }
+    destruct es as [|e0 [|e1 t]]; [apply S|apply S|].
+    destruct (entries_in_possible_key_order _) as [ordered| | |]; cbn [bind]; try reflexivity.
+    rewrite enc_text_item, enc_arr_item, enc_bytes_item, locs_eq, lenN_map, N.mul_comm. reflexivity.
+  - destruct es as [|e [|e1 t]]; try reflexivity. cbn [bind fst snd map flat_map].
+    change (2 * lenN [loc_of e]) with 2. unfold loc_bytes, loc_of. cbn [fst snd].
+    rewrite enc_text_item, enc_arr_item, !enc_uint_item, app_nil_r. reflexivity.
+Qed.
+
+Fixpoint index_pres (v : bversion) (gs : list (bytes * list ientry)) : R (list (bytes * bytes * list ientry)) :=
+  match gs with
+  | [] => Ok []
+  | g :: t => let* e := index_entry_pre v g in let* r := index_pres v t in Ok (e :: r)
+  end.
+
+Lemma index_entries_eq (v : bversion) (gs : list (bytes * list ientry)) :
+  index_entries v gs = let* ts := index_pres v gs in Ok (map (fun t => enc_ix v (triple_of t)) ts).
+Proof.
+  induction gs as [|g t IH]; cbn [index_entries index_pres]; [reflexivity|].
+  rewrite index_entry_eq, IH. destruct (index_entry_pre v g); cbn [bind]; try reflexivity.
+  destruct (index_pres v t); reflexivity.
+Qed.
+
+(* what a successful index_entry_pre says *)
+Lemma index_entry_pre_ok (v : bversion) (u : bytes) (es : list ientry) t :
+  index_entry_pre v (u, es) = Ok t ->
+  fst (fst t) = u /\ utf8_valid u = true /\
+  match v with
+  | BV2 => exists e, es = [e] /\ snd (fst t) = [] /\ snd t = [e]
+  | BV1 =>
+      match es with
+      | e0 :: _ :: _ =>
+          snd (fst t) = ie_variants e0 /\
+          entries_in_possible_key_order (map (fun e => (ie_variants e, ie_vkey e, e)) es) = Ok (snd t)
+      | _ => snd (fst t) = [] /\ snd t = es
+      end
+  end.
+Proof.
+  unfold index_entry_pre. destruct (utf8_valid u); cbn [negb].
+  2:{ destruct v; [discriminate|]. destruct es as [|? [|? ?]]; discriminate. }
+  destruct v.
+  - destruct es as [|e0 [|e1 r]].
+    + intros H; inversion H; subst; cbn; auto.
+    + intros H; inversion H; subst; cbn; auto.
+    + intros H. apply bindR_ok in H. destruct H as [ord [Ho H]]. inversion H; subst. cbn [fst snd]. auto.
+  - destruct es as [|e [|e1 r]]; try discriminate. intros H; inversion H; subst. cbn [fst snd].
+    split; [reflexivity|]. split; [reflexivity|]. exists e. auto.
+Qed.
+
+Lemma index_pres_ok (v : bversion) (gs : list (bytes * list ientry)) : forall ts,
+  index_pres v gs = Ok ts -> Forall2 (fun g t => index_entry_pre v g = Ok t) gs ts.
+Proof.
+  induction gs as [|g r IH]; intros ts H; cbn [index_pres] in H.
+  - inversion H; constructor.
+  - apply bindR_ok in H. destruct H as [t [Ht H]]. apply bindR_ok in H. destruct H as [ts' [Hr H]].
+    inversion H; subst. constructor; [exact Ht|apply IH; exact Hr].
+Qed.
+
+(* ---- the index section ----------------------------------------------------------------------- *)
+Definition ix_ltb (a b : bytes * bytes * list (N * N)) : bool := bytes_ltb (index_key a) (index_key b).
+Definition sorted_index (ts : list (bytes * bytes * list ientry)) : list (bytes * bytes * list (N * N)) :=
+  isort ix_ltb (map triple_of ts).
+
+Lemma sort_enc_ix (v : bversion) (l : list (bytes * bytes * list (N * N))) :
+  sort_entries (map (enc_ix v) l) = map (enc_ix v) (isort ix_ltb l).
+Proof. symmetry. exact (isort_map (enc_ix v) entry_lt l). Qed.
+
+Lemma index_section_ok (v : bversion) (ients : list ientry) (idx : bytes) :
+  index_section v ients = Ok idx ->
+  exists ts, index_pres v (groups_of ients) = Ok ts /\
+             idx = index_body v (sorted_index ts) /\
+             StronglySorted (fun a b => blt (index_key a) (index_key b)) (sorted_index ts).
+Proof.
+  unfold index_section. rewrite group_entries_eq, index_entries_eq. intros H.
+  apply bindR_ok in H. destruct H as [ents [He H]].
+  apply bindR_ok in He. destruct He as [ts [Ht He]]. inversion He; subst ents. clear He.
+  exists ts. split; [exact Ht|].
+  rewrite <- (map_map triple_of (enc_ix v)) in H. apply enc_map_ok in H. destruct H as [E S].
+  rewrite sort_enc_ix in E, S. split.
+  - rewrite E. unfold index_body, sorted_index. rewrite enc_map_item, !lenN_map, isort_lenN, lenN_map.
+    f_equal. rewrite flat_map_map. reflexivity.
+  - apply StronglySorted_map_inv' in S. exact S.
+Qed.
